@@ -44,6 +44,7 @@ class EventMixin(object):
     h.trace = []
     h.evidx = 0
     h.allocidx = 0
+    h.withidx = 0
     # path condition: keep only facts about values that are not loop-carried (parameters etc.)
     from pvc.stmts import assigned_names
     for nm in sorted(assigned_names(body) | set(extra_names)):
